@@ -148,7 +148,7 @@ func body(c *sched.Ctl, cs Case, v *ev.Verdict) {
 	var waiters []*waiter
 	var chans []handed
 	updLabels := map[string]bool{}
-	window, cancelRace, cleanup, errDuringCancel, panicked := false, false, false, false, false
+	window, cancelRace, cleanup, errDuringCancel, panicked, nilCb := false, false, false, false, false, false
 
 	c.OnGrant(func(tk *sched.Ticket) {
 		if tk.Point == "broadcast.lock" && updLabels[tk.Label] {
@@ -310,6 +310,25 @@ func body(c *sched.Ctl, cs Case, v *ev.Verdict) {
 						panic(r)
 					}
 				}()
+				if o.Panic && o.Twice {
+					// another fault: a nil callback (the call panics inside its critical section and the
+					// caller recovers); nothing was changed or broadcast, the lock must not stay held
+					nilCb = true
+					defer func() {
+						if r := recover(); r != nil && !nilCb {
+							panic(r)
+						}
+					}()
+					switch o.Via {
+					case "try":
+						b.TryHoldLock(nil)
+					case "async":
+						b.HoldLockMaybeAsync(nil)
+					default:
+						b.HoldLock(nil)
+					}
+					return
+				}
 				switch o.Via {
 				case "try":
 					if !b.TryHoldLock(cb) {
